@@ -56,7 +56,7 @@ OtherItem(v) ==
 OtherVal(kind, v) ==
   CASE kind \in {"item", "items"} -> OtherItem(v)
     [] kind = "nlv" -> Nlv([i \in 1..Len(v.e) |-> LR(v.e[i].r, v.e[i].t \o " changed")])
-    [] kind = "time" -> [v EXCEPT !.s = v.s + 3600]
+    [] kind = "time" -> [v EXCEPT !.s = IF v.s > 2000000000 THEN v.s - 3600 ELSE v.s + 3600]
     [] kind = "dur" -> [v EXCEPT !.s = v.s + 1]
     [] OTHER -> v
 
